@@ -6,6 +6,7 @@ import Sgz.Model.Writer
 import Sgz.Model.IO
 import Sgz.Model.Cache
 import Sgz.Model.Axes
+import Sgz.Model.Emul
 /-!
 Line-protocol driver over the executable model (`Sgz/Model`, Mathlib-free).  One request per line, one answer per
 line.  The Python harness sends the same request to the real implementation and diffs canonical answers.
@@ -261,6 +262,39 @@ def handleAxes (ws : List String) : String :=
     | _, _, _ => "bad-op"
   | _ => "bad-op"
 
+def optInt (w : String) : Option (Option Int) := if w == "N" then some none else w.toInt?.map some
+
+def showInts (xs : List Int) : String := " ".intercalate (xs.map toString)
+
+/-- `emul indices S E T LEN`, `emul range A B C`, `emul acc LEN S E T`, `emul line K1,K2,… S E T` (emulator | segyio) -/
+def handleEmul (ws : List String) : String :=
+  match ws with
+  | ["indices", a, b, c, n] =>
+    match optInt a, optInt b, optInt c, n.toNat? with
+    | some a, some b, some c, some n =>
+      match Emul.sliceIndices ⟨a, b, c⟩ n with
+      | some (x, y, z) => s!"{x} {y} {z}"
+      | none => "err"
+    | _, _, _, _ => "bad-op"
+  | ["range", a, b, c] =>
+    match a.toInt?, b.toInt?, c.toInt? with
+    | some a, some b, some c => showInts (Emul.pyRange a b c)
+    | _, _, _ => "bad-op"
+  | ["acc", n, a, b, c] =>
+    match n.toNat?, optInt a, optInt b, optInt c with
+    | some n, some a, some b, some c =>
+      match Emul.accessorSlice n ⟨a, b, c⟩ with
+      | some xs => showInts xs
+      | none => "err"
+    | _, _, _, _ => "bad-op"
+  | ["line", ks, a, b, c] =>
+    match (ks.splitOn ",").mapM String.toInt?, optInt a, optInt b, optInt c with
+    | some keys, some a, some b, some c =>
+      let sh (o : Option (List Int)) : String := match o with | some xs => showInts xs | none => "err"
+      s!"{sh (Emul.lineSlice keys ⟨a, b, c⟩)} | {sh (Segyio.lineSlice keys ⟨a, b, c⟩)}"
+    | _, _, _, _ => "bad-op"
+  | _ => "bad-op"
+
 def handle (line : String) : String :=
   if line.startsWith "hist " then handleHist (line.drop 5).toString else
   match (line.trimAscii.toString.splitOn " ").filter (· ≠ "") with
@@ -271,6 +305,7 @@ def handle (line : String) : String :=
   | "writer" :: rest => handleWriter rest
   | "io" :: rest => handleIO rest
   | "axes" :: rest => handleAxes rest
+  | "emul" :: rest => handleEmul rest
   | "hashfeed" :: rest => handleHashFeed rest
   | ["ping"] => "pong"
   | _ => "bad-op"
